@@ -86,26 +86,11 @@ void AsmContext::init()
 {
   tokens_reset(this);
 
-  // Default to MSP430.
-  parse_instruction = parse_instruction_msp430;
-  list_output = list_output_msp430;
-  cpu_list_index = -1;
-
-  // Everything a CPU directive or .bss changed in the previous pass goes
-  // back to the state the first pass started with, so the statements
-  // before the first CPU directive are read the same way in both passes.
-  parse_directive        = nullptr;
-  link_function          = nullptr;
-  cpu_type               = 0;
-  is_dollar_hex          = false;
-  strings_have_dots      = false;
-  strings_have_slashes   = false;
-  can_tick_end_string    = false;
-  numbers_dont_have_dots = false;
-  ignore_number_postfix  = false;
-  pass_1_write_disable   = false;
-  flags                  = 0;
-  segment                = 0;
+  // Default to MSP430: a source without a CPU directive is assembled with
+  // exactly the settings of the msp430 entry of cpu_list[] (in both passes),
+  // so everything a CPU directive changed in the previous pass is undone.
+  set_cpu("msp430");
+  segment = 0;
 
   address           = 0;
   instruction_count = 0;
@@ -113,10 +98,8 @@ void AsmContext::init()
   data_count        = 0;
   ifdef_count       = 0;
   parsing_ifdef     = 0;
-  bytes_per_address = 1;
   in_repeat         = 0;
   msp430_cpu4       = false;
-  memory.endian     = ENDIAN_LITTLE;
 
   macros.reset();
   def_param_stack_count = 0;
